@@ -88,6 +88,8 @@ def configs(tier, seed):
         cfgs.append(dict(kind='preemph_axis', name='preemphasize along every axis of %s' % (shp,), shape=list(shp)))
     cfgs.append(dict(kind='torch_pre', name='torch preemphasize'))
     cfgs.append(dict(kind='torch_dither', name='torch dither'))
+    cfgs.append(dict(kind='torch_mod_pre', name='torch module PyTorchPreemphasize (train / eval)'))
+    cfgs.append(dict(kind='torch_mod_dither', name='torch module PyTorchDither (train / eval)'))
     return cfgs
 
 
@@ -218,8 +220,18 @@ def run_torch(cfg):
         r0 = ND.fresh((conc(SInt(N)),), lambda idx: x(idx[0]), 'f8')
         r0.store.readonly = True
         t = TT(r0.store, dtype='f8')
-        fn = ns['pytorch_preemphasize'] if cfg['kind'] == 'torch_pre' else ns['pytorch_dither']
-        fn = getattr(fn, '__wrapped__', fn)
+        is_pre = cfg['kind'] in ('torch_pre', 'torch_mod_pre')
+        if cfg['kind'] == 'torch_mod_dither':
+            c.assume(co >= 0)        # the module's constructor rejects negative coefficients
+        if cfg['kind'].startswith('torch_mod'):
+            # the nn.Module wrappers, built by their real constructors (and from the NumPy pre-processors), in train and eval mode
+            mod = ns['PyTorchPreemphasize' if is_pre else 'PyTorchDither'](SReal(co))
+            if decide(z3.Bool('eval_mode')):
+                mod.eval()
+            fn = lambda sig_, co_: mod.forward(sig_)
+        else:
+            fn = ns['pytorch_preemphasize'] if is_pre else ns['pytorch_dither']
+            fn = getattr(fn, '__wrapped__', fn)
         try:
             out = fn(t, SReal(co))
         except Exception as e:
@@ -230,7 +242,7 @@ def run_torch(cfg):
         bad = [_z(out.shape[0]) != N]
         if not decide(N > 0):
             return ('ok', bad)
-        if cfg['kind'] == 'torch_pre':
+        if is_pre:
             want = z3.If(i == 0, x(0), x(i) - symex.rmul(co, x(i - 1)))
         else:
             want = x(i) + symex.rmul(co, NU(i))
@@ -252,7 +264,7 @@ def run_torch(cfg):
         if r == 'sat':
             m = s.model()
             viol.append(dict(kind=cfg['kind'], what='value', N=m.eval(z3.Int('N'), True).as_long(), i=m.eval(z3.Int('i'), True).as_long(),
-                             coeff=str(m.eval(z3.Real('coeff'), True)), **{'class': cfg['kind'] + '/value'}))
+                             coeff=str(m.eval(z3.Real('coeff'), True)), eval_mode=z3.is_true(m.eval(z3.Bool('eval_mode'), True)), **{'class': cfg['kind'] + '/value'}))
         else:
             dis += 1
         s.pop()
@@ -371,6 +383,29 @@ def replay(w):
         if not (w['in_place'] and dt == np.float64) and not np.array_equal(xs, orig):
             return {'reproduced': True, 'detail': 'input modified'}
         return {'reproduced': False, 'detail': 'matches'}
+    if k in ('torch_mod_pre', 'torch_mod_dither'):
+        import torch
+        from pydrobert.speech.torch import PyTorchPreemphasize, PyTorchDither
+        for N in Ns:
+            xs = rng.randn(N)
+            for co in coeffs:
+                for ev in (False, True):
+                    mod = PyTorchPreemphasize(co) if k == 'torch_mod_pre' else PyTorchDither(max(co, 0.0))
+                    if ev:
+                        mod.eval()
+                    torch.manual_seed(3)
+                    with torch.no_grad():
+                        got = mod(torch.tensor(xs)).numpy()
+                    if k == 'torch_mod_pre':
+                        want = xs.copy()
+                        want[1:] = xs[1:] - co * xs[:-1]
+                    else:
+                        torch.manual_seed(3)
+                        want = xs + max(co, 0.0) * torch.randn(N, dtype=torch.float64).numpy()
+                    if got.shape != want.shape or not np.allclose(got, want, atol=1e-12):
+                        return {'reproduced': True, 'detail': '%s(%r) in %s mode on %d samples: differs from the documented transform (max diff %.3g)' % (
+                            'PyTorchPreemphasize' if k == 'torch_mod_pre' else 'PyTorchDither', co, 'eval' if ev else 'train', N, float(np.abs(got - want).max()) if got.shape == want.shape and N else float('nan'))}
+        return {'reproduced': False, 'detail': 'torch modules match in train and eval mode'}
     if k in ('torch_pre', 'torch_dither'):
         import torch
         from pydrobert.speech.torch import pytorch_preemphasize, pytorch_dither
